@@ -11,7 +11,7 @@ package status
 //@ pure doneChan(t *Tracker, d ocispec.Descriptor) chanunit = as(syncVal(lockOf(t, "status"), box(K(d))), chanunit)
 //@ pure tracked(t *Tracker, d ocispec.Descriptor) bool = syncHas(lockOf(t, "status"), box(K(d)))
 //@
-//@ pure trackerRI(t *Tracker) bool = t != nil && (forall k any :: syncHas(lockOf(t, "status"), k) ==> typeIs(syncVal(lockOf(t, "status"), k), chanunit) && as(syncVal(lockOf(t, "status"), k), chanunit) != nil)
+//@ pure trackerRI(t *Tracker) bool = t != nil && (forall k any :: syncHas(lockOf(t, "status"), k) ==> typeIs(syncVal(lockOf(t, "status"), k), chanunit) && as(syncVal(lockOf(t, "status"), k), chanunit) != nil && !ctxChan(as(syncVal(lockOf(t, "status"), k), chanunit)))
 //@
 //@ func (*Tracker).TryCommit
 //@   requires [ri] trackerRI(t)
